@@ -141,11 +141,12 @@ package codegen
 //@   props C01 C08 C11
 //@   option verify-only
 //@   option noframe
+//@   option shape-zero p.
+//@   option after-call d=constdecl(A)
 //@   shape p = new
-//@   shape p.Decls = constdecls() | constdecls(A) | constdecls(B,A)
 //@   shape d = constdecl(A) | constdecl(C)
-//@   ensures [C01,C08,C11] an-equal-declaration-is-not-added-again: old(count_decls(p.Decls, "*codegen.Constant")) >= 1 && d.Name == "A" ==> len(p.Decls) == old(len(p.Decls))
-//@   ensures [C01] a-new-declaration-is-added: (d.Name == "C" || old(len(p.Decls)) == 0) ==> len(p.Decls) == old(len(p.Decls)) + 1 && last(p.Decls) == d
+//@   ensures [C01,C08,C11] an-equal-declaration-is-not-added-again: d.Name == "A" ==> len(p.Decls) == 1
+//@   ensures [C01] a-new-declaration-is-added: d.Name == "C" ==> len(p.Decls) == 2 && last(p.Decls) == d
 
 // ---- the name a package is referred to by (C20) ----------------------------------
 // The last element of the import path; a path without '/' or ending in '/' is its
